@@ -180,6 +180,25 @@ func atomBF(s *Sym, pos bool) *BF {
 	var f *BF
 	switch a.K {
 	case ALe:
+		// unsigned x: `x <= 0` is `x == 0`, and `x >= 1` its negation (same atom as the equality test)
+		if len(a.L.T) == 1 {
+			for k, co := range a.L.T {
+				if isUnsignedSym(a.L.S[k]) && (co == 1 && a.L.K == 0 || co == -1 && a.L.K == 1) {
+					at := &BAtom{Key: fmt.Sprintf("%s == 0", k), Loads: atomLoads(a), EnumSym: k, EnumVal: 0}
+					el := newLin()
+					el.T[k] = 1
+					el.S[k] = a.L.S[k]
+					at.EqL = el
+					f = &BF{Op: 'a', Atom: at}
+					if co == -1 {
+						f = bfNot(f)
+					}
+				}
+			}
+		}
+		if f != nil {
+			break
+		}
 		// canonical representative of {L<=0, -L+1<=0}
 		n := newLin()
 		n.add(a.L, -1)
